@@ -1,4 +1,5 @@
 #![cfg(feature = "topic")]
+#![allow(unexpected_cfgs)] // `excsn_fibre_verif` gates the verification seam H8 (scheduling points)
 
 use super::core::{SpmcTopicDispatcher, SubscriberList};
 use super::mailbox::{self, RecvFuture};
@@ -50,6 +51,8 @@ where
       return Err(SendError::Closed);
     }
 
+    #[cfg(all(excsn_fibre_verif, not(loom)))]
+    crate::sync::verif_hook::point(); // verification seam H8
     let pinned_map = self.dispatcher.subscriptions.pin();
 
     if let Some(list_arc) = pinned_map.get(&topic) {
@@ -61,6 +64,8 @@ where
       drop(mailboxes_snapshot); // Guard is dropped, no locks held.
 
       for mailbox_weak in subscribers.iter() {
+        #[cfg(all(excsn_fibre_verif, not(loom)))]
+        crate::sync::verif_hook::point(); // verification seam H8
         if let Some(mailbox_strong) = mailbox_weak.upgrade() {
           mailbox_strong.deliver((topic.clone(), value.clone()));
         }
@@ -84,6 +89,8 @@ where
   }
 
   fn close_internal(&self) {
+    #[cfg(all(excsn_fibre_verif, not(loom)))]
+    crate::sync::verif_hook::point(); // verification seam H8
     let pinned_map = self.dispatcher.subscriptions.pin();
     for (_topic, list_arc) in pinned_map.iter() {
       let subscribers_snapshot = list_arc.reader.enter();
@@ -175,6 +182,8 @@ where
       return; // Already subscribed.
     }
     drop(subs);
+    #[cfg(all(excsn_fibre_verif, not(loom)))]
+    crate::sync::verif_hook::point(); // verification seam H8
 
     if let Some(dispatcher) = self.dispatcher.upgrade() {
       let list_arc = dispatcher
@@ -183,6 +192,8 @@ where
         .get_or_insert_with(topic, || Arc::new(SubscriberList::new()))
         .clone();
 
+      #[cfg(all(excsn_fibre_verif, not(loom)))]
+      crate::sync::verif_hook::point(); // verification seam H8
       list_arc.writer.modify(|list| {
         list.retain(|w| w.upgrade().is_some());
         if !list
@@ -206,6 +217,8 @@ where
       return; // Not subscribed.
     }
     drop(subs);
+    #[cfg(all(excsn_fibre_verif, not(loom)))]
+    crate::sync::verif_hook::point(); // verification seam H8
 
     if let Some(dispatcher) = self.dispatcher.upgrade() {
       if let Some(list_arc) = dispatcher.subscriptions.pin().get(topic) {
@@ -238,11 +251,15 @@ where
   }
 
   fn close_internal(&self) {
+    #[cfg(all(excsn_fibre_verif, not(loom)))]
+    crate::sync::verif_hook::point(); // verification seam H8
     if let Some(dispatcher) = self.dispatcher.upgrade() {
       let topics_to_unsubscribe: Vec<K> = self.subscriptions.lock().drain().collect();
       for topic in topics_to_unsubscribe {
         self.unsubscribe(&topic);
       }
+      #[cfg(all(excsn_fibre_verif, not(loom)))]
+      crate::sync::verif_hook::point(); // verification seam H8
       dispatcher.receiver_count.fetch_sub(1, Ordering::Relaxed);
     }
   }
@@ -285,6 +302,8 @@ where
   fn clone(&self) -> Self {
     if let Some(dispatcher) = self.dispatcher.upgrade() {
       dispatcher.receiver_count.fetch_add(1, Ordering::Relaxed);
+      #[cfg(all(excsn_fibre_verif, not(loom)))]
+      crate::sync::verif_hook::point(); // verification seam H8
 
       let mailbox_capacity = self.consumer.capacity();
       let (p, c) = mailbox::channel(mailbox_capacity);
